@@ -75,7 +75,7 @@ func profile(format string, bias string, big bool) logical.Profile {
 		MinBlocks: 2, MaxBlocks: 9,
 		Tab: true, Break: true, Sym: true, Spaces: true,
 		MaxHeadingLevel: 9,
-		Lists:           true, ListMaxDepth: 3,
+		Lists:           true, ListMaxDepth: 3, ListJumps: true,
 		Tables: true, MaxRows: 4, MaxCols: 4, Spans: true, MultiPara: true, EmptyCells: true, CellSpecials: true, HeaderRows: true,
 		Pipes: true, XMLChars: true, EmptyParas: true, HeaderFooter: true, Title: true,
 		BlockBias: bias, BlockContainers: true,
@@ -198,6 +198,9 @@ func evaluate(c *fw.Ctx, id string, d *logical.Doc, format string, neutral map[s
 			if e != nil {
 				err2 = e
 			} else {
+				// the same reader first serves filtered views: they must not disturb the plain one
+				r.MarkdownWithOptions(docx.ExtractOptions{ExcludeHeaders: true, ExcludeFooters: true})
+				r.TextWithOptions(docx.ExtractOptions{ExcludeHeaders: true})
 				md2, err2 = r.Markdown()
 				r.Close()
 			}
@@ -206,6 +209,8 @@ func evaluate(c *fw.Ctx, id string, d *logical.Doc, format string, neutral map[s
 			if e != nil {
 				err2 = e
 			} else {
+				r.MarkdownWithOptions(odt.ExtractOptions{ExcludeHeaders: true, ExcludeFooters: true})
+				r.TextWithOptions(odt.ExtractOptions{ExcludeFooters: true})
 				md2, err2 = r.Markdown()
 				r.Close()
 			}
